@@ -47,3 +47,27 @@ Print Assumptions C13_lifecycle_oracle_all_histories.
 Theorem C13_fresh_premise_witness : fresh_hist kinit c13_witness.
 Proof. exact fresh_hist_witness. Qed.
 Print Assumptions C13_fresh_premise_witness.
+
+(* ---- the pipe ID allocator (internal/core/pipe.go), for EVERY value of its 32-bit counter and every set of IDs in use ---- *)
+From MV Require Import Model.PipeId Proofs.PipeIdProofs.
+
+(* an ID that is handed out is non-zero, fits in 31 bits and is not in use at that moment *)
+Theorem C13_id_nonzero_31bit_unused : forall a id a', get a = Some (id, a') ->
+  id <> 0 /\ id < 2 ^ 31 /\ ~ In id (a_used a) /\ a_used a' = id :: a_used a.
+Proof. exact get_sound. Qed.
+Print Assumptions C13_id_nonzero_31bit_unused.
+
+(* after ANY sequence of allocations, releases and counter positions: no two live IDs are equal, none is zero, none needs 32 bits *)
+Theorem C13_live_ids_distinct_all_histories : forall ops a, wf a -> wf (fold_left (fun a o => fst (id_step a o)) ops a).
+Proof. exact wf_run. Qed.
+Print Assumptions C13_live_ids_distinct_all_histories.
+
+(* the search loop always ends with an ID (|in use| + 2 candidates suffice) while fewer than 2^31 - 1 IDs are in use *)
+Theorem C13_id_allocator_total : forall a, N.of_nat (length (a_used a)) + 2 <= 2 ^ 31 -> get a <> None.
+Proof. exact get_total. Qed.
+Print Assumptions C13_id_allocator_total.
+
+(* the premise of the history theorem is satisfiable *)
+Theorem C13_id_wf_init : wf {| a_used := []; a_next := 2 ^ 31 |}.
+Proof. split; constructor. Qed.
+Print Assumptions C13_id_wf_init.
